@@ -332,20 +332,25 @@ def plain(a):
     return a.split("!")[0] if a.startswith("ok ev:") else a
 
 def run(cases):
-    """implementation first; then the model, told the implementation's answers"""
-    text = "".join(f"backend {c['backend']}\n" + "\n".join(c["ops"]) + "\n" for c in cases)
-    rc1, impl, err1 = C.run_lines([C.VH, "store"], text)
-    lines = text.split("\n")[:-1]
-    if len(impl) != len(lines):
-        raise RuntimeError(f"memlru engine: implementation answered {len(impl)} of {len(lines)} lines rc={rc1}\n{err1[-800:]}")
-    fed = "".join(f"{l} ## {plain(a)}\n" for l, a in zip(lines, impl))
+    """implementation first; then the model, told the implementation's answers.  A case in which the harness process died
+    (S.impl_answers) is not shown to the model; `correspondence` reports it as a failing input."""
+    impl = S.impl_answers(cases)
+    for c, a in zip(cases, impl):
+        c["impl"] = a[1:]
+        c["_hdr"] = a[0]
+    alive = [c for c in cases if c.get("died_at") is None]
+    lines = [l for c in alive for l in [f"backend {c['backend']}"] + c["ops"]]
+    answers = [x for c in alive for x in [c["_hdr"]] + c["impl"]]
+    fed = "".join(f"{l} ## {plain(a)}\n" for l, a in zip(lines, answers))
     rc2, model, err2 = C.run_lines([C.DRV, "memlru"], fed)
     if len(model) != len(lines):
         raise RuntimeError(f"memlru engine: model answered {len(model)} of {len(lines)} lines rc={rc2}\n{err2[-800:]}")
     i = 0
     for c in cases:
+        if c.get("died_at") is not None:
+            c["model"], c["cands"], c["evict"] = list(c["impl"]), [], []
+            continue
         n = len(c["ops"]) + 1
-        c["impl"] = impl[i + 1:i + n]
         rows = [m.split("\t") for m in model[i + 1:i + n]]
         c["model"] = [r[0] for r in rows]
         meta = [(r[1] if len(r) > 1 else "0 ").split(" ", 1) for r in rows]
@@ -359,7 +364,7 @@ def case_text(c, upto=None, note=""):
     return f"# case {c['id']}\n" + (f"# {note}\n" if note else "") + f"backend {c['backend']}\n" + "\n".join(ops) + "\n"
 
 def correspondence(cases):
-    fails = []
+    fails = S.died_failures(cases, case_text)
     for c in cases:
         for k, (op, a, b) in enumerate(zip(c["ops"], c["impl"], c["model"])):
             if not S.same(plain(a), b):
